@@ -232,8 +232,26 @@ pub fn run(case: &str) -> String {
         let live = (crate::A64_ALLOCS.load(Ordering::SeqCst) - a64a0) as i64 - (crate::A64_FREES.load(Ordering::SeqCst) - a64f0) as i64;
         if live == 0 { "ok".to_string() } else { format!("records-still-held:{live}") }
     } else { "skipped".to_string() };
+    // one run in six: a keep-alive connection is open and idle when the server is told to stop accepting, and stays idle for
+    // 1.3 s (longer than the loop's wake-up interval): it is served afterwards all the same, and serve_epoll returns only when
+    // it has ended and its record is freed (round-6 seed C15-l: the loop left on its first quiet interval)
+    let mut lingerer = if salt % 6 == 3 { connect() } else { None };
+    if let Some(s) = lingerer.as_mut() {
+        s.set_nodelay(true).ok();
+        s.set_read_timeout(Some(Duration::from_secs(3))).unwrap();
+        let mut rb = Vec::new();
+        let _ = s.write_all(b"GET /none?linger=1 HTTP/1.1\r\n\r\n");
+        match read_one(s, &mut rb) { Some(r) if r.starts_with("200,") => {}, other => bad.push(format!("lingering connection: first request got {other:?}")) }
+    }
     stop.store(true, Ordering::SeqCst);
     let _ = connect();
+    if let Some(mut s) = lingerer.take() {
+        std::thread::sleep(Duration::from_millis(1300));
+        let mut rb = Vec::new();
+        let _ = s.write_all(b"GET /none?linger=2 HTTP/1.1\r\n\r\n");
+        match read_one(&mut s, &mut rb) { Some(r) if r.starts_with("200,") => {}, other => bad.push(format!("connection left idle across StopAccepting: not served afterwards, got {other:?}")) }
+        drop(s);
+    }
     let t0 = Instant::now();
     while !th.is_finished() && t0.elapsed() < Duration::from_secs(3) { std::thread::sleep(Duration::from_millis(2)); }
     if th.is_finished() { let _ = th.join(); } else { bad.push("serve_epoll did not return".into()); }
@@ -286,7 +304,7 @@ pub fn gen(ctx: &Ctx) {
     out.rule = "real serve_epoll executions: 1..4 workers, 1..8 concurrent lock-step clients with 1..5 requests each (requests sometimes split in two segments, random sub-millisecond pauses), a third of the clients eager \
                 (slow handlers that answer first and linger 2-12 ms, so the next request or the close arrives while the previous request is in flight), endings \
                 {client close or half-close, Connection: close, handler Err of kinds Other / WouldBlock / TimedOut / Interrupted, response with close, RST while the last request is in its handler, half a request head followed by the client's FIN}; every third run with >= 2 workers has workers-1 stalled clients (half a head until all others are done), 0..2 injected EPOLL_CTL_ADD failures; client connects staggered over 9 ms in two thirds of the runs and a setup hook that lingers 0 / 0.3 / 1.5 / 4 ms on the event-loop thread (so that \
-                connections are closed by workers while their events sit in the loop's batch: the loop-side reclamation path); every third run's setup hook hands back a clone of the accepted stream; every fourth run interrupts the loop's epoll_wait with signals; a burst run (one worker held 12 ms while 89 connections become ready); every client checks that its responses arrive in order and belong to its \
+                connections are closed by workers while their events sit in the loop's batch: the loop-side reclamation path); every third run's setup hook hands back a clone of the accepted stream; every fourth run interrupts the loop's epoll_wait with signals; a burst run (one worker held 12 ms while 89 connections become ready); one run in six leaves the server alone for 1.3 s before the stop (records reclaimed by the loop itself), one in six keeps an idle keep-alive connection open across StopAccepting for 1.3 s and uses it afterwards; every client checks that its responses arrive in order and belong to its \
                 own requests; the hook event log is replayed through the Coq transition system. Schedules are sampled. non-trivial = at least 2 connections".into();
     let n = if ctx.thorough { 1500 } else { 80 };
     for _ in 0..n {
